@@ -530,7 +530,14 @@ def _run_once(sc: dict, with_block: bool, post_ops: List[str], wrappers: bool, p
             denied[id(frame)] = owner[id(self)]
         return permitted, rule
 
+    barrier = set(roles_for(sc)) - set(prot) if with_block else set()
+    to_prot = {"n": 0, "on": False}
+
     def tx(self, sender_nic, frame):
+        if to_prot["on"] and sender_nic._connected_node.config.hostname in barrier:
+            rx = self.endpoint_b if self.endpoint_a is sender_nic else self.endpoint_a
+            if rx is not None and rx._connected_node is not None and rx._connected_node.config.hostname in prot:
+                to_prot["n"] += 1
         d = denied.get(id(frame))
         if d is not None and sender_nic._connected_node is d[0]:
             frame_viol.append(f"{d[0].config.hostname} sent on a frame its {d[1]} denied")
@@ -562,10 +569,11 @@ def _run_once(sc: dict, with_block: bool, post_ops: List[str], wrappers: bool, p
         tick()
         at_block = {h: node_obs(N[h]) for h in prot}
         topo = topo_lines(sc, sim, N, prot) if with_block else []
+        to_prot["on"] = True
         for op in post_ops:
             guarded(op)
         tick()
-    return {"obs": {h: node_obs(N[h]) for h in prot}, "at_block": at_block, "topo": topo, "log": log, "errors": errors,
+    return {"obs": {h: node_obs(N[h]) for h in prot}, "at_block": at_block, "topo": topo, "to_prot": to_prot["n"], "log": log, "errors": errors,
             "frame_viol": frame_viol}
 
 
@@ -589,8 +597,13 @@ def run_scenario(sc: dict, control: bool = True) -> dict:
     logging.disable(logging.WARNING)  # the simulator logs link removals etc. at INFO to the console
     prot = protected(sc)
     attack = _run_once(sc, True, sc["post_ops"], True, prot)
-    idle = _run_once(sc, True, ["tick"] * len(sc["post_ops"]), False, prot)
+    idle = _run_once(sc, True, ["tick"] * len(sc["post_ops"]), True, prot)
     violations = []
+    if attack["to_prot"] != idle["to_prot"]:
+        # validates the cut theorem's software hypothesis on the implementation: what a blocking router / firewall emits
+        # towards the protected side does not depend on what the attacker side does
+        violations.append({"kind": "blocking-element-emitted-to-protected", "what":
+                           f"blocking element put {attack['to_prot']} frames on protected-side wires after the block, {idle['to_prot']} when A idles"})
     for h in prot:
         d = _first_diff(idle["obs"][h], attack["obs"][h], h)
         if d:
